@@ -33,3 +33,25 @@ for p in props:
     sc = seeded.get(pid, [])
     caught = sum(1 for d, m in sc if m.get("detected", True))
     print("| %s | %s | %s | %d (+%d) | %d | %s | %s |" % (pid, name, pr.get("level", "proof"), len(pr.get("theorems", [])), len(pr.get("witnesses", [])), nk, " ".join(fx) or "—", ("%d/%d" % (caught, len(sc))) if sc else "—"))
+
+print()
+print("### Repaired defects (`fix:` commits in /repo, one per defect)")
+print()
+for x in known["fixed"]:
+    print("* `" + x[:520].replace("|", "/") + ("…" if len(x) > 520 else "") + "`")
+print()
+print("### Known findings (genuine defects recorded, not repaired; key = failing input class)")
+print()
+print("| property | key | what fails |")
+print("|---|---|---|")
+for f in sorted(known["findings"], key=lambda f: (f.get("property", ""), f["key"])):
+    print("| %s | `%s` | %s |" % (f.get("property"), f["key"], str(f.get("what", "")).replace("|", "/")[:400]))
+if seeded:
+    print()
+    print("### Independently written breaking changes (seeded/) and the checks that catch them")
+    print()
+    print("| seeded change | property | what it needs to manifest | existing tests | reported by |")
+    print("|---|---|---|---|---|")
+    for pid in sorted(seeded):
+        for d, m in seeded[pid]:
+            print("| %s | %s | %s | %s | %s |" % (d, pid, str(m.get("needs", ""))[:300].replace("|", "/").replace("\n", " "), str(m.get("suite", "pass"))[:80], str(m.get("reported_by", m.get("confirmed_by_coordinator", "")))[:300].replace("|", "/")))
